@@ -1,0 +1,9 @@
+//go:build !verif
+
+package nject
+
+// No-op twins of the verification hooks in verif_on.go (-tags verif).
+
+func verifDump(string, bool, []*provider, int, map[typeCode]int, map[typeCode]int, int, *provider) {}
+
+func verifYield(string) {}
